@@ -25,6 +25,7 @@ var (
 	tmMaxLen = map[string]int{}
 	tmTotal  time.Duration
 	tmCases  int
+	tmPrefix = "a_"
 )
 
 func timed(c Case) (*core.Violation, obs) {
@@ -43,7 +44,12 @@ func timed(c Case) (*core.Violation, obs) {
 		tmMax[key] = ms
 		tmMaxLen[key] = len(c.input())
 	}
+	pub := tmCases%64 == 0 || tmCases < 4
 	tmMu.Unlock()
+	if pub {
+		// (core writes the statistics inside Run, so the measurements are published as we go)
+		publishTimings(tmPrefix)
+	}
 	return v, o
 }
 
@@ -172,7 +178,7 @@ var assumptions = []string{
 }
 
 func TestC17a(t *testing.T) {
-	defer publishTimings("a_")
+	tmPrefix = "a_"
 	core.Run(t, core.Spec[Case]{
 		Property: "C17", Sub: "a",
 		Rule: "inputs: random bytes (biased to scanner-relevant characters), grammar-generated native config/expression/template/traversal/JSON text, and the repo's own corpora (hclsyntax/fuzz, hclwrite/fuzz, json/fuzz, specsuite, profiles/*.yaotl), then 0-3 mutations out of flip/delete/dup/repeat/insert-token/truncate/bad-UTF-8/BOM/CRLF/splice; 12% of cases feed one syntax to another entry point; size <= 16 KiB quick / 256 KiB thorough. Entry points: hclsyntax.ParseConfig/ParseExpression/ParseTemplate/ParseTraversalAbs/LexConfig/LexExpression/LexTemplate, json.Parse/ParseExpression, hclwrite.ParseConfig. Oracle: no panic, returns within 30 s, token stream covers the input (ascending, no overlap, Bytes == src[range], gaps only space/tab in main mode and none in template modes, leading BOM, EOF at len, line numbers), every node/traversal/diagnostic range inside the input with Start<=End, children inside parents, and with no error diagnostic evaluation (nil/empty/populated context), JustAttributes, hcldec.Decode (derived permissive spec + fixed spec) and gohcl.DecodeBody (remain) do not panic. Non-trivial: the input got past the lexer with >=1 token other than EOF/Newline/Invalid/BadUTF8 (JSON: first non-blank byte can start a value). distinct = (entry point, generator class, first mutation, length bucket, has-errors)",
@@ -182,7 +188,7 @@ func TestC17a(t *testing.T) {
 }
 
 func TestC17b(t *testing.T) {
-	defer publishTimings("b_")
+	tmPrefix = "b_"
 	core.SetExtra("b_depth_bound", deepMax)
 	core.Run(t, core.Spec[Case]{
 		Property: "C17", Sub: "b",
